@@ -247,7 +247,7 @@ func (fr *frame) runDefer(d *deferred) {
 
 func isAbort(r interface{}) bool {
 	switch r.(type) {
-	case pathAbort, engineError:
+	case pathAbort, engineError, threadExit:
 		return true
 	}
 	return false
@@ -766,7 +766,7 @@ func runFrame(fr *frame) {
 		}
 		r := recover()
 		switch rv := r.(type) {
-		case pathAbort, engineError:
+		case pathAbort, engineError, threadExit:
 			panic(r)
 		case targetPanic:
 			if len(fr.i.panicTrace) < 12 {
